@@ -15,6 +15,9 @@ R04.e  metadata: elapsed_time = (clock after solve) - (clock before);
        solved_by is the solver's class name.
 R04.f  registries are total and name-consistent; machine choosers return an
        element of ``operation.machines``.
+R04.h  no function of these modules modifies the object of a mutable default
+       argument (directly, through a local alias, or with ``+=``): the result
+       of a call must not depend on earlier calls.
 """
 
 from __future__ import annotations
@@ -42,6 +45,7 @@ MANIFEST = {
         "operation's eligible machines. Not decided: termination through "
         "non-empty filters, value-level optimality of the choice, equality of "
         "the direct and observer-based MWKR choices."
+        " Also decided: no function of these modules accumulates into a mutable default argument."
     ),
     "note": "Criterion idioms recognised: min/max(xs, key=...), sorted(xs, key=...)[0], negated keys; accumulation tables built by a loop over a dispatcher query. Other shapes are ANALYSIS-ERROR.",
     "technique": "abstract interpretation (element-of domain) + criterion table matching + def-use order of clock reads + registry table check",
@@ -171,6 +175,8 @@ def _table(fi: FuncInfo, name: str, ctx=None, depth=0):
     for n in own_nodes(fi.node):
         if isinstance(n, ast.For):
             src = n.iter
+            if ctx is not None and isinstance(src, ast.Name):
+                src = ctx.norm.xexpr(fi, src)  # `ops = d.unscheduled_operations(); for op in ops:`
             if not (isinstance(src, ast.Call) and isinstance(src.func, ast.Attribute)):
                 continue
             for m in ast.walk(n):
@@ -180,7 +186,8 @@ def _table(fi: FuncInfo, name: str, ctx=None, depth=0):
                 ):
                     idx = m.target.slice
                     idx_attr = idx.attr if isinstance(idx, ast.Attribute) else None
-                    return src.func.attr, ast.unparse(m.value), idx_attr, isinstance(n.target, ast.Name) and n.target.id
+                    inc = ctx.norm.xtext(fi, m.value) if ctx is not None else ast.unparse(m.value)
+                    return src.func.attr, inc, idx_attr, isinstance(n.target, ast.Name) and n.target.id
     return None
 
 
@@ -238,6 +245,9 @@ def criterion(ctx, member: str, fi: FuncInfo):
             chk.violation("R04.b", fi, node, f"{member}: operations are ranked by `{ast.unparse(key.body)}`, the documented criterion is {doc}", loc=fi.loc(node))
             return
         t = _table(fi, ks[1], ctx)
+        if t is None:
+            # the accumulation may sit in a (higher-order) private helper
+            t = _table(ctx.norm.flat(fi, depth=3), ks[1], ctx)
         if t is None:
             raise AnalysisError(f"{fi.qualname}: accumulation of `{ks[1]}` not recognised")
         src, inc, idx_attr, loopvar = t
@@ -682,6 +692,9 @@ def purity(ctx):
 
 def run(ctx):
     chk, repo = ctx.chk, ctx.repo
+    from .common import check_mutable_defaults
+
+    check_mutable_defaults(ctx, "R04.h", ("job_shop_lib.dispatching.rules", "job_shop_lib._base_solver"), "the rule / solver")
     chk.rule("R04.g", "rules, scoring functions and scorers mutate nothing reachable from the dispatcher or an observer")
     for rid, txt in (
         ("R04.a", "every returned operation is an element of dispatcher.available_operations()"),
